@@ -897,6 +897,7 @@ class BisectionZD(Bisection1D):
         i = self.selection_key_outer
 
         old_height = 99999
+        selection_keys = {}
 
         while i < len(self.coordinates_domain_nested) and i < max_iter:
             self.coordinates_domain = self.coordinates_domain_nested[i]
@@ -907,6 +908,7 @@ class BisectionZD(Bisection1D):
             except ValueError:
                 break
             self.calculated_temperatures_nested[i] = self.calculated_temperatures
+            selection_keys[i] = selection_key
 
             self.ghe.compute_g_functions()
             self.ghe.size(method=TimestepType.HYBRID)
@@ -935,9 +937,13 @@ class BisectionZD(Bisection1D):
 
         negative_excess_values = [v for v in values if v <= 0.0]
 
-        excess_of_interest = max(negative_excess_values)
-        idx = values.index(excess_of_interest)
-        selection_key = keys[idx]
+        if negative_excess_values:
+            excess_of_interest = max(negative_excess_values)
+            idx = values.index(excess_of_interest)
+            selection_key = keys[idx]
+        else:
+            # continue_if_design_unmet: no evaluated field meets the limits, keep the fallback the search picked
+            selection_key = selection_keys[selection_key_outer]
         selected_coordinates = self.coordinates_domain_nested[selection_key_outer][selection_key]
 
         self.initialize_ghe(
